@@ -1,6 +1,8 @@
 package checks
 
 import (
+	"crypto/sha256"
+	"encoding/hex"
 	"encoding/json"
 	"fmt"
 	"os"
@@ -111,7 +113,14 @@ type hnode struct {
 }
 
 func (n *hnode) key() string {
-	return n.boxKey + "|" + n.ws.key() + "|" + strings.Join(n.pending, ",")
+	// the reference model is part of the state (see cnode.key)
+	ms := make([]string, 0, len(n.model))
+	for k := range n.model {
+		h := sha256.Sum256([]byte(k))
+		ms = append(ms, hex.EncodeToString(h[:6]))
+	}
+	sort.Strings(ms)
+	return n.boxKey + "|" + n.ws.key() + "|" + strings.Join(n.pending, ",") + "|" + strings.Join(ms, "")
 }
 
 type cleanResult struct {
